@@ -113,7 +113,7 @@ def run_hypothesis_shard(mod, tier, seed, shard, nshards, examples, known_bucket
     remaining = examples
     rnd = 0
     strat = mod.strategy(tier)
-    shrink_budget = 400 if tier == "quick" else 3000
+    shrink_budget = 150 if tier == "quick" else 2000
 
     class Found(Exception):
         pass
